@@ -2626,7 +2626,15 @@ StylesheetExecutionContextDefault::addToXPathCache(
                 ++i;
             }
         }
-        assert(earliest != theEnd);
+
+        if (earliest == theEnd)
+        {
+            // No entry is older than the current clock value.  That
+            // happens when the clock has not advanced since the entries
+            // were added, is not available, or has wrapped around.  We
+            // still have to remove an entry, and any one will do.
+            earliest = m_matchPatternCache.begin();
+        }
 
         // Return the XPath and erase it from the cache.
         m_xsltProcessor->returnXPath((*earliest).second.first);
